@@ -41,6 +41,49 @@ func runC41(c *core.Ctx) {
 			id := core.RetOperand(r, 0)
 			ok, why := false, "no dominating `len(GetStorage(id)) == 0` test for the returned identifier"
 			for _, cd := range core.CondsAt(r.Block()) {
+				// the test may be a boolean method of the contract (`if e.isFree(id)`): every answer of it is
+				// `len(GetStorage(p)) == 0` (or a constant "taken"), p being the parameter the identifier is handed as
+				if hc, isCall := cd.V.(*ssa.Call); isCall && cd.Taken {
+					if h := hc.Call.StaticCallee(); h != nil && h.Blocks != nil && h.Pkg == fn.Pkg && h != fn {
+						all, any := true, false
+						for _, hr := range core.Returns(h) {
+							rv := core.RetOperand(hr, 0)
+							if b, isC := core.ConstBool(rv); isC {
+								all = all && !b
+								continue
+							}
+							bo, isB := rv.(*ssa.BinOp)
+							good := false
+							if isB {
+								f := core.FactOf(core.Cond{V: bo, Taken: true})
+								for _, side := range []ssa.Value{bo.X, bo.Y} {
+									lc, isC := side.(*ssa.Call)
+									if !isC || len(lc.Call.Args) != 1 {
+										continue
+									}
+									key := core.ExprKey(lc)
+									if ub, has := f.UpperBound(key); !has || ub > 0 || !strings.HasPrefix(key, "len(") {
+										continue
+									}
+									gs, isG := lc.Call.Args[0].(*ssa.Call)
+									if !isG || !isInvoke(&gs.Call, "GetStorage") {
+										continue
+									}
+									for i, p := range h.Params {
+										if ssa.Value(p) == gs.Call.Args[0] && i < len(hc.Call.Args) && hc.Call.Args[i] == id {
+											good = true
+										}
+									}
+								}
+							}
+							all, any = all && good, any || good
+						}
+						if all && any {
+							ok = true
+							c.Analysed(fname(h))
+						}
+					}
+				}
 				f := core.FactOf(cd)
 				lenKey := f.B
 				if strings.HasPrefix(f.A, "len(") {
@@ -153,6 +196,12 @@ func joinBig(a, b bigIv) bigIv {
 
 // bigIntervalsAt runs the forward analysis and returns the state just before `at`.
 func bigIntervalsAt(fn *ssa.Function, at ssa.Instruction) map[ssa.Value]bigIv {
+	return bigFlow(fn, nil, at, 0)
+}
+
+// bigFlow: the analysis proper. init gives intervals for objects known on entry (a helper's parameters bound
+// to what its caller knows of the arguments); at == nil asks for the join of the states at the returns.
+func bigFlow(fn *ssa.Function, init map[ssa.Value]bigIv, at ssa.Instruction, depth int) map[ssa.Value]bigIv {
 	type state map[ssa.Value]bigIv
 	clone := func(s state) state {
 		c := state{}
@@ -184,7 +233,44 @@ func bigIntervalsAt(fn *ssa.Function, at ssa.Instruction) map[ssa.Value]bigIv {
 	}
 	step := func(s state, in ssa.Instruction) {
 		call, ok := in.(*ssa.Call)
-		if !ok || call.Call.StaticCallee() == nil || call.Call.StaticCallee().Pkg == nil || call.Call.StaticCallee().Pkg.Pkg.Path() != "math/big" {
+		if !ok || call.Call.StaticCallee() == nil || call.Call.StaticCallee().Pkg == nil {
+			return
+		}
+		// a function of the same package handed tracked objects: its effect on them is what its own returns
+		// know of the parameters, the parameters starting from what is known here
+		if h := call.Call.StaticCallee(); h.Pkg == fn.Pkg && h.Blocks != nil && h != fn {
+			handed := map[ssa.Value]bigIv{}
+			byParam := map[*ssa.Parameter]ssa.Value{}
+			for i, p := range h.Params {
+				if i >= len(call.Call.Args) {
+					continue
+				}
+				o := bigObj(call.Call.Args[i])
+				if iv, tracked := s[o]; tracked {
+					handed[p] = iv
+					byParam[p] = o
+				}
+			}
+			if len(handed) == 0 {
+				return
+			}
+			if depth >= 2 {
+				for _, o := range byParam {
+					s[o] = bigIv{top: true}
+				}
+				return
+			}
+			out := bigFlow(h, handed, nil, depth+1)
+			for p, o := range byParam {
+				if iv, ok := out[p]; ok {
+					s[o] = iv
+				} else {
+					s[o] = bigIv{top: true}
+				}
+			}
+			return
+		}
+		if call.Call.StaticCallee().Pkg.Pkg.Path() != "math/big" {
 			return
 		}
 		callee := call.Call.StaticCallee()
@@ -337,6 +423,9 @@ func bigIntervalsAt(fn *ssa.Function, at ssa.Instruction) map[ssa.Value]bigIv {
 	visits := map[*ssa.BasicBlock]int{}
 	work := []*ssa.BasicBlock{fn.Blocks[0]}
 	in[fn.Blocks[0]] = state{}
+	for k, v := range init {
+		in[fn.Blocks[0]][k] = v
+	}
 	for len(work) > 0 {
 		b := work[0]
 		work = work[1:]
@@ -388,6 +477,35 @@ func bigIntervalsAt(fn *ssa.Function, at ssa.Instruction) map[ssa.Value]bigIv {
 			}
 		}
 	}
+	if at == nil {
+		// the join over the returns
+		var out state
+		for _, b := range fn.Blocks {
+			if _, isRet := b.Instrs[len(b.Instrs)-1].(*ssa.Return); !isRet {
+				continue
+			}
+			st, reached := in[b]
+			if !reached {
+				continue
+			}
+			s := clone(st)
+			for _, ins := range b.Instrs {
+				step(s, ins)
+			}
+			if out == nil {
+				out = s
+				continue
+			}
+			for k, v := range out {
+				if w, ok := s[k]; ok {
+					out[k] = joinBig(v, w)
+				} else {
+					out[k] = bigIv{top: true}
+				}
+			}
+		}
+		return out
+	}
 	s := clone(in[at.Block()])
 	for _, ins := range at.Block().Instrs {
 		if ins == at {
@@ -400,58 +518,87 @@ func bigIntervalsAt(fn *ssa.Function, at ssa.Instruction) map[ssa.Value]bigIv {
 
 // c41Digits: the random part of the identifier is printed with %0Nx and stays below 16^N on
 // every path into the print, so the identifier always has exactly N hex digits.
-func c41Digits(c *core.Ctx, fn *ssa.Function) {
+func c41Digits(c *core.Ctx, top *ssa.Function) {
 	n := 0
-	core.Instrs(fn, func(in ssa.Instruction) {
-		call, ok := in.(*ssa.Call)
-		if !ok || call.Call.StaticCallee() == nil || call.Call.StaticCallee().Name() != "Sprintf" || len(call.Call.Args) != 2 {
-			return
+	// where the print happens: in the function itself, or in a function of the package it calls (the printed
+	// parameter then stands for the argument, whose range is the one known at the call)
+	type printSite struct {
+		fn   *ssa.Function
+		site *ssa.Call // the call in top that leads to the print (nil: the print is in top)
+	}
+	scopes := []printSite{{top, nil}}
+	core.Instrs(top, func(in ssa.Instruction) {
+		if call, ok := in.(*ssa.Call); ok {
+			if h := call.Call.StaticCallee(); h != nil && h.Blocks != nil && h.Pkg == top.Pkg && h != top {
+				scopes = append(scopes, printSite{h, call})
+			}
 		}
-		fc, ok := call.Call.Args[0].(*ssa.Const)
-		if !ok {
-			return
-		}
-		format := constant.StringVal(fc.Value)
-		var width int
-		if k, _ := fmt.Sscanf(format, "%%0%dx", &width); k != 1 || format != fmt.Sprintf("%%0%dx", width) {
-			return
-		}
-		n++
-		// the printed operand
-		var obj ssa.Value
-		if sl, ok := call.Call.Args[1].(*ssa.Slice); ok {
-			if al, ok := sl.X.(*ssa.Alloc); ok && al.Referrers() != nil {
-				for _, r := range *al.Referrers() {
-					ia, ok := r.(*ssa.IndexAddr)
-					if !ok || ia.Referrers() == nil {
-						continue
-					}
-					for _, rr := range *ia.Referrers() {
-						if st, ok := rr.(*ssa.Store); ok {
-							if mi, ok := st.Val.(*ssa.MakeInterface); ok {
-								obj = bigObj(mi.X)
+	})
+	for _, sc := range scopes {
+		fn, site := sc.fn, sc.site
+		core.Instrs(fn, func(in ssa.Instruction) {
+			call, ok := in.(*ssa.Call)
+			if !ok || call.Call.StaticCallee() == nil || call.Call.StaticCallee().Name() != "Sprintf" || len(call.Call.Args) != 2 {
+				return
+			}
+			fc, ok := call.Call.Args[0].(*ssa.Const)
+			if !ok {
+				return
+			}
+			format := constant.StringVal(fc.Value)
+			var width int
+			if k, _ := fmt.Sscanf(format, "%%0%dx", &width); k != 1 || format != fmt.Sprintf("%%0%dx", width) {
+				return
+			}
+			n++
+			// the printed operand
+			var obj ssa.Value
+			if sl, ok := call.Call.Args[1].(*ssa.Slice); ok {
+				if al, ok := sl.X.(*ssa.Alloc); ok && al.Referrers() != nil {
+					for _, r := range *al.Referrers() {
+						ia, ok := r.(*ssa.IndexAddr)
+						if !ok || ia.Referrers() == nil {
+							continue
+						}
+						for _, rr := range *ia.Referrers() {
+							if st, ok := rr.(*ssa.Store); ok {
+								if mi, ok := st.Val.(*ssa.MakeInterface); ok {
+									obj = bigObj(mi.X)
+								}
 							}
 						}
 					}
 				}
 			}
-		}
-		name := fmt.Sprintf("esdt.createNewTokenIdentifier/%s#%d", format, n)
-		if obj == nil {
-			c.Undecided("C41/identifier-has-fixed-width", name, in.Pos(), "the printed operand is not a tracked *big.Int")
-			return
-		}
-		iv, known := bigIntervalsAt(fn, in)[obj]
-		limit := new(big.Int).Lsh(big.NewInt(1), uint(4*width))
-		ok2 := known && !iv.top && iv.lo.Sign() >= 0 && iv.hi != nil && iv.hi.Cmp(limit) < 0
-		detail := "the value printed is unbounded at this point (incremented around the retry loop without being reduced)"
-		if known && !iv.top && iv.hi != nil {
-			detail = fmt.Sprintf("the value printed ranges over [%s, %s]", iv.lo.Text(16), iv.hi.Text(16))
-		}
-		c.Check(ok2, "C41/identifier-has-fixed-width", name, in.Pos(),
-			fmt.Sprintf("the random part is in [0, 16^%d) on every path into the print: exactly %d hex digits", width, width),
-			fmt.Sprintf("%s, which is not below 16^%d: after a taken candidate at the top of the range the identifier gets %d digits (TICKER-1000000)", detail, width, width+1))
-	})
+			name := fmt.Sprintf("esdt.createNewTokenIdentifier/%s#%d", format, n)
+			if obj == nil {
+				c.Undecided("C41/identifier-has-fixed-width", name, in.Pos(), "the printed operand is not a tracked *big.Int")
+				return
+			}
+			var iv bigIv
+			var known bool
+			if site == nil {
+				iv, known = bigIntervalsAt(fn, in)[obj]
+			} else {
+				// the printed object is the helper's parameter: what the caller knows of the argument at the call
+				for i, p := range fn.Params {
+					if ssa.Value(p) == obj && i < len(site.Call.Args) {
+						iv, known = bigIntervalsAt(top, site)[bigObj(site.Call.Args[i])]
+						c.Analysed(fname(fn))
+					}
+				}
+			}
+			limit := new(big.Int).Lsh(big.NewInt(1), uint(4*width))
+			ok2 := known && !iv.top && iv.lo.Sign() >= 0 && iv.hi != nil && iv.hi.Cmp(limit) < 0
+			detail := "the value printed is unbounded at this point (incremented around the retry loop without being reduced)"
+			if known && !iv.top && iv.hi != nil {
+				detail = fmt.Sprintf("the value printed ranges over [%s, %s]", iv.lo.Text(16), iv.hi.Text(16))
+			}
+			c.Check(ok2, "C41/identifier-has-fixed-width", name, in.Pos(),
+				fmt.Sprintf("the random part is in [0, 16^%d) on every path into the print: exactly %d hex digits", width, width),
+				fmt.Sprintf("%s, which is not below 16^%d: after a taken candidate at the top of the range the identifier gets %d digits (TICKER-1000000)", detail, width, width+1))
+		})
+	}
 	c.Floor("C41/identifier-has-fixed-width", 1)
 }
 
